@@ -604,3 +604,194 @@ func FuzzC07Deserialize(f *testing.F) {
 		}
 	})
 }
+
+// ---------- ACK/NACK delivered in the middle of a retransmission round ----------
+
+// midResendCase: as winCase, but the hostile ACK/NACK reaches the sender
+// while it is retransmitting its window: the transport takes a millisecond to
+// accept the K-th retransmitted packet (a relay that is slow to take a
+// message), and the relay delivers the hostile packet in that millisecond, so
+// the receive loop processes it between two packets of the resend loop.
+type midResendCase struct {
+	N    int    `json:"n"`
+	Base int    `json:"base"`
+	Size int    `json:"size"` // outstanding packets (>= 2)
+	Op   string `json:"op"`
+	V    int    `json:"v"`
+	K    int    `json:"k"` // the hostile packet arrives while the K-th retransmitted packet is being accepted
+}
+
+func runC07MidResend(t *testing.T, c midResendCase) (violation string) {
+	s := c.N + 1
+	out := vnet.InBubble(t, bubbleWatchdog, func() {
+		tr := vnet.NewTrace(10000)
+		c2s := vnet.NewLink("c2s", 0, nil, tr)
+		s2c := vnet.NewLink("s2c", 0, nil, tr)
+		peer := &rawPeer{out: s2c, in: c2s}
+		ctx, cancel := context.WithCancel(context.Background())
+		defer cancel()
+		var (
+			mu      sync.Mutex
+			seen    = map[string]bool{}
+			retrans int
+			fired   bool
+		)
+		slowSend := func(sctx context.Context, b []byte) error {
+			if typ, _, _ := vnet.Describe(b); typ == "DATA" {
+				mu.Lock()
+				key := string(b)
+				hit := false
+				if seen[key] {
+					if retrans == c.K && !fired {
+						fired, hit = true, true
+					}
+					retrans++
+				}
+				seen[key] = true
+				mu.Unlock()
+				if hit {
+					if c.Op == "ack" {
+						peer.send(&gbn.PacketACK{Seq: uint8(c.V)})
+					} else {
+						peer.send(&gbn.PacketNACK{Seq: uint8(c.V)})
+					}
+					// the transport is slow to accept this packet; meanwhile
+					// the receive loop gets the packet above
+					time.Sleep(time.Millisecond)
+				}
+			}
+			return c2s.Send(sctx, b)
+		}
+		connc := make(chan *gbn.GoBackNConn, 1)
+		go func() {
+			conn, _ := gbn.NewClientConn(ctx, uint8(c.N), slowSend, s2c.Recv,
+				gbn.WithTimeoutOptions(gbn.WithStaticResendTimeout(200*time.Millisecond),
+					gbn.WithHandshakeTimeout(200*time.Millisecond)))
+			connc <- conn
+		}()
+		if _, ok := peer.recv(time.Second).(*gbn.PacketSYN); !ok {
+			violation = "raw server did not get a SYN"
+			cancel()
+			<-connc
+			return
+		}
+		peer.send(&gbn.PacketSYN{N: uint8(c.N)})
+		peer.recv(time.Second) // SYNACK
+		conn := <-connc
+		if conn == nil {
+			violation = "client did not complete a clean handshake"
+			return
+		}
+		go func() {
+			for {
+				if _, err := conn.Recv(); err != nil {
+					return
+				}
+			}
+		}()
+		total := c.Base + c.Size
+		sendDone := make(chan struct{})
+		go func() {
+			defer close(sendDone)
+			for i := 0; i < total+2; i++ {
+				if conn.Send([]byte{byte(i), 0xAA}) != nil {
+					return
+				}
+			}
+		}()
+		got := 0
+		for got < total {
+			m := peer.recv(50 * time.Millisecond)
+			d, ok := m.(*gbn.PacketData)
+			if !ok {
+				if m == nil {
+					break
+				}
+				continue
+			}
+			if int(d.Seq) == got%s {
+				if got < c.Base {
+					peer.send(&gbn.PacketACK{Seq: d.Seq})
+				}
+				got++
+			}
+		}
+		synctest.Wait()
+		// the resend timer (200 ms) starts the retransmission round in which
+		// the hostile packet is delivered; then the connection runs on
+		deadline := time.Now().Add(2 * time.Second)
+		for time.Now().Before(deadline) {
+			peer.recv(100 * time.Millisecond)
+			if v := windowOK(conn.VerifWindow()); v != "" {
+				violation = fmt.Sprintf("%+v: %s", c, v)
+				cancel()
+				return
+			}
+		}
+		_ = conn.Close()
+		cancel()
+		<-sendDone
+	})
+	if out.Panic != "" && !out.Deadlock && violation == "" {
+		violation = "panic: " + out.Panic
+	}
+	return
+}
+
+func TestC07MidResend(t *testing.T) {
+	const unit = "TestC07MidResend"
+	rec := stats.New(t, "C07", unit)
+	var rc midResendCase
+	if stats.ReplayCase(unit, &rc) {
+		if v := runC07MidResend(t, rc); v != "" {
+			rec.Violation(v, "mid_resend", rc)
+			t.Fatal(v)
+		}
+		return
+	}
+	if stats.ReplayMode() {
+		t.Skip()
+	}
+	nviol := 0
+	ns := []int{2, 3, 4}
+	if stats.Thorough() {
+		ns = []int{2, 3, 4, 5, 6}
+	}
+	shard, shards := stats.Shard()
+	idx := 0
+	for _, n := range ns {
+		s := n + 1
+		for base := 0; base < s; base++ {
+			for size := 2; size <= n; size++ {
+				for _, op := range []string{"ack", "nack"} {
+					vals := []int{255}
+					for v := 0; v <= s; v++ {
+						vals = append(vals, v)
+					}
+					for _, v := range vals {
+						for k := 0; k < size; k++ {
+							idx++
+							if idx%shards != shard {
+								continue
+							}
+							c := midResendCase{N: n, Base: base, Size: size, Op: op, V: v, K: k}
+							rec.Current("mid_resend", c)
+							viol := runC07MidResend(t, c)
+							rec.Case(true, fmt.Sprintf("%+v", c), "ack_or_nack_between_two_retransmitted_packets")
+							if viol != "" && nviol < 5 {
+								nviol++
+								rec.Violation(viol, "mid_resend", c)
+							}
+						}
+					}
+				}
+			}
+		}
+	}
+	rec.Sample(midResendCase{N: 3, Base: 1, Size: 3, Op: "nack", V: 0, K: 1})
+	rec.SetExhaustive(true)
+	rec.Done()
+	if nviol > 0 {
+		t.Fatalf("%d violations", nviol)
+	}
+}
